@@ -77,7 +77,27 @@ impl Write for AsyncWritableFile {
     ) -> Poll<Result<(), async_std::io::Error>> {
         let this = self.get_mut();
         let file = Pin::new(&mut this.content);
-        file.poll_flush(cx)
+        match file.poll_flush(cx) {
+            Poll::Ready(Ok(())) => {}
+            other => return other,
+        }
+        // publish the buffer, like the sync WritableFile::flush does
+        match this.fs.try_write() {
+            Some(mut handle) => {
+                handle.files.insert(
+                    this.destination.clone(),
+                    AsyncMemoryFile {
+                        file_type: VfsFileType::File,
+                        content: Arc::new(this.content.get_ref().clone()),
+                    },
+                );
+                Poll::Ready(Ok(()))
+            }
+            None => {
+                cx.waker().wake_by_ref();
+                Poll::Pending
+            }
+        }
     }
     fn poll_close(
         self: Pin<&mut Self>,
